@@ -925,6 +925,9 @@ func (h *NtfnsHandler) asyncImport(walletId string) (finish bool, err error) {
 		allBalances := map[string]massutil.Amount{addrmgr.Name(): addrMgrBalance}
 
 		stop = ws.SyncedHeight + 1000
+		if simImportBatch > 0 {
+			stop = ws.SyncedHeight + simImportBatch
+		}
 		if stop > h.bestBlock.Height {
 			stop = h.bestBlock.Height
 		}
